@@ -196,6 +196,7 @@ func execEngineCase(caseID string, wf *AWf, text string, beh map[string]Behaviou
 	}
 	out["log"] = s.snapshot()
 	out["cancel_after_ms"] = o.cancelAfterMs
+	out["closure_ms"] = closureOf(wf)
 	return out
 }
 
@@ -225,8 +226,22 @@ func cmdEngine(args []string) int {
 		if cancelMode == "random" {
 			o.cancelAfterMs = cr.intn(60)
 			o.hang = true
+			g.closureMs = 100 + 50*cr.intn(4)
 		}
 		w.emit(runEngineCase(cr, fmt.Sprintf("engine-%d-%d", c.seed, i), g, o))
 	}
 	return 0
+}
+
+func closureOf(wf *AWf) map[string]int {
+	out := map[string]int{}
+	for _, s := range wf.Steps {
+		out[s.ID] = 5000
+		if c, ok := s.Fields["closure_wait_timeout"]; ok {
+			n := 0
+			fmt.Sscanf(c.Lit, "%d", &n)
+			out[s.ID] = n
+		}
+	}
+	return out
 }
